@@ -402,6 +402,42 @@ def gen_C01(rng):
     return ctx.text()
 
 
+def gen_C19(rng, n=2500):
+    """terminal codec: boundary values first, then random ones"""
+    L = []
+    W = 1 << 30
+    ints = [0, 1, -1, 2, -2, W - 1, W, W + 1, -W, -W - 1, -W + 1, W - 2, (1 << 31) - 1, -(1 << 31),
+            (1 << 31), (1 << 32), -(1 << 32) - 1, (1 << 61), -(1 << 61), 255, 256, 65535, 65536]
+    for v in ints:
+        L.append("term int %d" % v)
+    for _ in range(n // 3):
+        r = rng.random()
+        if r < 0.5:
+            v = rng.randint(-W - 3, W + 3)
+        elif r < 0.8:
+            v = rng.choice([1, -1]) * (1 << rng.randint(0, 31)) + rng.randint(-2, 2)
+        else:
+            v = rng.randint(-(1 << 40), 1 << 40)
+        L.append("term int %d" % v)
+    # all 512 sign/exponent classes with mantissa corner patterns
+    mant = [0, 1, 2, 3, 0x400000, 0x7fffff, 0x7ffffe, 0x000004]
+    classes = list(range(512))
+    rng.shuffle(classes)
+    for se in classes[: max(64, n // 10)]:
+        for m in (mant if rng.random() < 0.3 else [rng.choice(mant), rng.getrandbits(23)]):
+            L.append("term real %08x" % ((se << 23) | m))
+    for b in [0, 1, 2, 3, 0x80000000, 0x80000001, 0x80000002, 0x7f800000, 0xff800000, 0x7f7fffff,
+              0x00800000, 0x007fffff, 0x3f800000, 0xbf800001]:
+        L.append("term real %08x" % b)
+    for _ in range(n // 3):
+        L.append("term real %08x" % rng.getrandbits(32))
+    L += ["term bool 0", "term bool 1"]
+    for _ in range(n // 10):
+        L.append("term hint %d" % -rng.getrandbits(31))
+        L.append("term hreal %d" % -rng.getrandbits(31))
+    return "\n".join(L) + "\n"
+
+
 GENS = {
     "C01": gen_C01,
     "C03": gen_C03,
